@@ -7,3 +7,5 @@ import "net/http"
 // Built without the accessor (it did not compile against this tree): the session table is not visible;
 // probes then carry no cookie list.
 func sessionCookies(h http.Handler) ([]string, bool) { return nil, false }
+
+func hookAfterReset(h http.Handler, f func(key string, ok bool)) bool { return false }
